@@ -2,29 +2,41 @@
 //!
 //!   c22 <tier> <seed> <outdir>
 //!
-//! Implementation level (oracle): a generated builder (definition as in C03 + created/gathered
-//! flags, thumbnail resource, definition-only ingredients and stream ingredients — unsigned,
-//! signed, tampered C2PA assets) is signed (a) directly and (b) after a chain of 1–3
-//! `to_archive` → `with_archive` round trips (fresh Context each time); the two reports must agree
-//! after abstraction of what legitimately differs between two signings (manifest ids, instance
-//! ids, times, hashes, signature), the restored one must itself reflect the definition (C03
-//! oracle), and the ingredient manifests carried along must be the same set. Fixtures:
-//! `old_format_archive.zip` must still load; `bad_path_archive.zip` (manifest.json with
-//! `"base_path": "/"`) loads without taking the path over.
+//! Implementation level (oracle, independent of the model): a generated builder — definition as
+//! in C03 + created/gathered flags, claim thumbnail, generator icon, definition-only ingredients
+//! (with and without a caller thumbnail), stream ingredients (unsigned / signed / tampered /
+//! fixture assets whose manifest chains are linked by `c2pa_manifest` or `activeManifest`, with
+//! and without a caller thumbnail), redactions of an ingredient assertion, settings-driven
+//! actions and templates, Create / Edit intents, `no_embed` + `remote_url` — is signed (a)
+//! directly and (b) after a chain of 1–3 `to_archive` → `with_archive` round trips (fresh Context
+//! each time). The two reports are compared *completely*: every differing JSON path is collected
+//! (only what two signings of the same content necessarily differ in is abstracted: the active
+//! manifest's own label and instance id, times, hashes, signature members; a resource
+//! identifier is replaced by the digest of the bytes it resolves to). Differences are then
+//! attributed: a difference is accepted as a known finding only when the *plan* has the feature
+//! the finding is about and the differing paths are the ones that finding explains; everything
+//! else is `restored-report-differs` (a violation).
 //!
-//! Model level: `C22 chain n=… v=… thumb=… alg=… asn=label:kind:created,…` — the restored
-//! builder's definition (serialised) against `C2pa.C22.chain` (Model/C22.lean), including the
-//! two witnesses of the Props file (hash_alg not restored; reserved-label assertion dropped).
+//! Model level: the real `Builder` is abstracted into a state line (serialised definition +
+//! the ingredients' materialised manifest stores), before and after the round trips, the same
+//! way; `C22 chain n=… <state>` must give the restored builder's state (`C2pa.C22.chain`), and
+//! `C22 sign n=… <state>` the abstraction of the signed report (`C2pa.C22.sign` + `report`):
+//! title, claim thumbnail, generators, embedding mode, redactions, assertions with instance
+//! numbers / kinds / created flags / action lists / template counts in claim order, ingredients
+//! with label, active manifest, validation results, status count and whether their thumbnail is
+//! the claim thumbnail of their own manifest, and the carried manifests with their links. Every
+//! witness of Props/C22.lean is replayed (`W-…` cases).
 
 #[path = "../defgen.rs"]
 mod defgen;
 
+use std::collections::BTreeSet;
 use std::io::Cursor;
 
-use c2pa::{Builder, Context};
+use c2pa::{Builder, BuilderIntent, Context, Reader};
 use defgen::*;
 use serde_json::{json, Value};
-use vh::common::{canon_json, fixtures, guarded, main_with, Rng, Run};
+use vh::common::{canon_json, fixtures, guarded, hex, main_with, Rng, Run};
 use vh::sign::unsigned_sources;
 
 #[derive(Clone)]
@@ -33,7 +45,27 @@ struct StreamIng {
     relationship: &'static str,
     format: String,
     data: Vec<u8>,
-    kind: &'static str, // unsigned | signed | tampered
+    kind: &'static str, // unsigned | signed | tampered | nested
+    /// labels of the assertions of the asset's active manifest and that manifest's label
+    info: Option<(String, Vec<String>)>,
+    /// claim version of the asset's active manifest
+    claim_v: u8,
+    user_thumb: bool,
+}
+
+#[derive(Clone, Default)]
+struct Extras {
+    xa: Vec<&'static str>,
+    xt: usize,
+    intent: Option<&'static str>,
+    no_embed: bool,
+    remote: bool,
+    /// redaction URIs
+    redact: Vec<String>,
+    icon: bool,
+    def_ing_thumb: Vec<bool>,
+    /// replaces the definition's assertion list
+    raw_assertions: Option<Vec<Value>>,
 }
 
 #[derive(Clone)]
@@ -41,9 +73,34 @@ struct Plan {
     supplied: Supplied,
     created: Vec<bool>,
     stream_ings: Vec<StreamIng>,
+    x: Extras,
 }
 
-fn definition_with_created(p: &Plan) -> Value {
+fn settings_for(p: &Plan) -> String {
+    let mut s: Value = serde_json::from_str(&base_settings()).unwrap();
+    if !p.x.xa.is_empty() || p.x.xt > 0 {
+        let mut a = json!({});
+        if !p.x.xa.is_empty() {
+            a["actions"] = Value::Array(p.x.xa.iter().map(|n| if *n == "c2pa.created" { json!({"action": n, "source_type": "http://cv.iptc.org/newscodes/digitalsourcetype/digitalCapture"}) } else { json!({"action": n}) }).collect());
+        }
+        if p.x.xt > 0 {
+            a["templates"] = Value::Array((0..p.x.xt).map(|k| json!({"action": "c2pa.edited", "description": format!("verif template {k}")})).collect());
+        }
+        s["builder"] = json!({"actions": a});
+    }
+    s.to_string()
+}
+
+fn thumb_bytes(k: usize) -> Vec<u8> {
+    // distinct small JPEG-looking resources (only compared by content)
+    let mut b = std::fs::read(fixtures().join("thumbnail.jpg")).unwrap_or_else(|_| vec![0xff, 0xd8, 0xff, 0xe0, 0, 4, 1, 2, 0xff, 0xd9]);
+    b.truncate(b.len().min(4000));
+    b.extend_from_slice(&[0xff, 0xfe, 0, 3, k as u8]);
+    b.extend_from_slice(&[0xff, 0xd9]);
+    b
+}
+
+fn definition_of(p: &Plan) -> Value {
     let mut d = definition_json(&p.supplied);
     if let Some(a) = d["assertions"].as_array_mut() {
         for (i, x) in a.iter_mut().enumerate() {
@@ -52,17 +109,61 @@ fn definition_with_created(p: &Plan) -> Value {
             }
         }
     }
+    if let Some(raw) = &p.x.raw_assertions {
+        d["assertions"] = Value::Array(raw.clone());
+    }
+    if p.x.icon {
+        d["claim_generator_info"][0]["icon"] = json!({"format": "image/jpeg", "identifier": "verif-icon.jpg"});
+    }
+    for (k, t) in p.x.def_ing_thumb.iter().enumerate() {
+        if *t && d["ingredients"].get(k).is_some() {
+            d["ingredients"][k]["thumbnail"] = json!({"format": "image/jpeg", "identifier": format!("verif-dthumb-{k}.jpg")});
+        }
+    }
+    if !p.x.redact.is_empty() {
+        d["redactions"] = json!(p.x.redact);
+    }
     d
 }
 
 fn build(p: &Plan, settings: &str) -> c2pa::Result<Builder> {
     let ctx = Context::new().with_settings(settings)?;
-    let mut b = Builder::from_context(ctx).with_definition(definition_with_created(p).to_string().as_str())?;
+    let mut b = Builder::from_context(ctx).with_definition(definition_of(p).to_string().as_str())?;
     if let Some((_, bytes)) = &p.supplied.thumbnail {
         b.add_resource("verif-thumb.jpg", Cursor::new(bytes.clone()))?;
     }
-    for ing in &p.stream_ings {
-        b.add_ingredient_from_stream(json!({"title": ing.title, "relationship": ing.relationship}).to_string(), &ing.format, &mut Cursor::new(ing.data.clone()))?;
+    if p.x.icon {
+        b.add_resource("verif-icon.jpg", Cursor::new(thumb_bytes(200)))?;
+    }
+    for (k, t) in p.x.def_ing_thumb.iter().enumerate() {
+        if *t && k < p.supplied.ingredients.len() {
+            b.add_resource(&format!("verif-dthumb-{k}.jpg"), Cursor::new(thumb_bytes(100 + k)))?;
+        }
+    }
+    match p.x.intent {
+        Some("create") => {
+            b.set_intent(BuilderIntent::Create(c2pa::DigitalSourceType::DigitalCapture));
+        }
+        Some("edit") => {
+            b.set_intent(BuilderIntent::Edit);
+        }
+        _ => {}
+    }
+    if p.x.no_embed {
+        b.set_no_embed(true);
+    }
+    if p.x.remote {
+        b.set_remote_url("http://verif.invalid/manifest.c2pa");
+    }
+    for (k, ing) in p.stream_ings.iter().enumerate() {
+        // a fixed instance id: `from_stream` would otherwise draw a random one per build, and the
+        // direct and the restored signing come from two builds of the same plan
+        let mut j = json!({"title": ing.title, "relationship": ing.relationship, "instance_id": format!("xmp:iid:verif-stream-{k}")});
+        if ing.user_thumb {
+            b.add_resource(&format!("verif-sthumb-{k}.jpg"), Cursor::new(thumb_bytes(k)))?;
+            j["thumbnail"] = json!({"format": "image/jpeg", "identifier": format!("verif-sthumb-{k}.jpg")});
+        }
+        b.add_ingredient_from_stream(j.to_string(), &ing.format, &mut Cursor::new(ing.data.clone()))?;
     }
     Ok(b)
 }
@@ -87,205 +188,482 @@ fn sign_builder(mut b: Builder, fmt: &str, src: &[u8], signer_alg: &str) -> c2pa
     Ok((out.into_inner(), m))
 }
 
-/// Abstract away what legitimately differs between two signings of the same content: the active
-/// manifest's label (everywhere it occurs), `xmp:iid` instance ids, times, hashes, signature
-/// dependent members, assertion instance numbers (URIs, not content) and thumbnail identifiers
-/// (thumbnails are compared by content separately). Ingredient manifest labels stay as they are.
-fn abstract_report(rep: &Value) -> Value {
-    let active = rep.get("active_manifest").and_then(|x| x.as_str()).unwrap_or("").to_string();
-    fn scrub_str(s: &str, active: &str) -> String {
-        let s = if active.is_empty() { s.to_string() } else { s.replace(active, "<active>") };
-        // assertion instance suffixes (`label__2`) are numbering, not content
-        let s = {
-            let mut t = String::with_capacity(s.len());
-            let cs: Vec<char> = s.chars().collect();
-            let mut i = 0;
-            while i < cs.len() {
-                if cs[i] == '_' && i + 2 < cs.len() + 0 && cs.get(i + 1) == Some(&'_') && cs.get(i + 2).map(|c| c.is_ascii_digit()).unwrap_or(false) {
-                    i += 2;
-                    while i < cs.len() && cs[i].is_ascii_digit() {
-                        i += 1;
-                    }
-                } else {
-                    t.push(cs[i]);
-                    i += 1;
-                }
-            }
-            t
-        };
-        let mut out = String::with_capacity(s.len());
-        let b = s.as_bytes();
-        let mut i = 0;
-        let is_hex = |c: u8| c.is_ascii_hexdigit() || c == b'-';
-        while i < b.len() {
-            let rest = &s[i..];
-            if rest.starts_with("xmp:iid:") || rest.starts_with("xmp.iid:") {
-                out.push_str(&rest[..8]);
-                i += 8;
-                while i < b.len() && is_hex(b[i]) {
-                    i += 1;
-                }
-                out.push_str("<id>");
-            } else {
-                let ch = rest.chars().next().unwrap();
-                out.push(ch);
-                i += ch.len_utf8();
-            }
+fn err_class(e: &c2pa::Error) -> String {
+    match e {
+        c2pa::Error::BadParam(_) => "badparam".into(),
+        c2pa::Error::AssertionRedactionNotFound => "redactionnotfound".into(),
+        c2pa::Error::AssertionInvalidRedaction => "invalidredaction".into(),
+        c2pa::Error::OtherError(x) if x.to_string().contains("version too new") => "versiontoonew".into(),
+        other => {
+            let s = format!("{other:?}");
+            format!("other-{}", s.split(|c: char| !c.is_ascii_alphanumeric()).next().unwrap_or("x"))
         }
-        out
     }
-    fn go(v: &Value, active: &str, in_active: bool) -> Value {
+}
+
+// ---------------------------------------------------------------------------------------------
+// abstraction shared by request and reply
+
+#[derive(Default)]
+struct Names {
+    labels: Vec<String>,
+}
+
+impl Names {
+    fn name(&mut self, label: &str) -> String {
+        if let Some(i) = self.labels.iter().position(|l| l == label) {
+            return format!("m{i}");
+        }
+        self.labels.push(label.to_string());
+        format!("m{}", self.labels.len() - 1)
+    }
+}
+
+fn asn_label_with_instance(a: &Value) -> String {
+    let l = a["label"].as_str().unwrap_or("?");
+    match a.get("instance").and_then(|x| x.as_u64()) {
+        Some(n) if n > 0 => format!("{l}__{n}"),
+        _ => l.to_string(),
+    }
+}
+
+/// one manifest of a store as the model's `Man`: name!version!thumb!links!assertion labels
+fn man_token(label: &str, m: &Value, names: &mut Names) -> (String, String) {
+    let name = names.name(label);
+    let ver = if label.contains("urn:c2pa:") { 2 } else { 1 };
+    let thumb = m.get("thumbnail").is_some();
+    let mut links = vec![];
+    for i in m["ingredients"].as_array().into_iter().flatten() {
+        if let Some(a) = i.get("active_manifest").and_then(|x| x.as_str()) {
+            let via_active = i.get("label").and_then(|x| x.as_str()).map(|l| l.starts_with("c2pa.ingredient.v3")).unwrap_or(false);
+            links.push(format!("{}{}", if via_active { "a" } else { "c" }, names.name(a)));
+        }
+    }
+    let asns: Vec<String> = m["assertions"].as_array().into_iter().flatten().map(asn_label_with_instance).collect();
+    let tok = format!("{name}!{ver}!{}!{}!{}", if thumb { 1 } else { 0 }, if links.is_empty() { "-".into() } else { links.join("~") }, if asns.is_empty() { "-".into() } else { asns.join("~") });
+    (name, tok)
+}
+
+fn store_tokens(bytes: &[u8], names: &mut Names, settings: &str) -> String {
+    let ctx = match Context::new().with_settings(settings) {
+        Ok(c) => c,
+        Err(_) => return "unreadable".into(),
+    };
+    let r = match Reader::from_context(ctx).with_stream("application/c2pa", Cursor::new(bytes.to_vec())) {
+        Ok(r) => r,
+        Err(e) => return format!("unreadable-{}", err_class(&e)),
+    };
+    let v: Value = serde_json::from_str(&r.json()).unwrap_or(Value::Null);
+    // name the active manifest first so that names do not depend on hash-map order
+    let active = v["active_manifest"].as_str().unwrap_or("").to_string();
+    names.name(&active);
+    let mut labels: Vec<String> = v["manifests"].as_object().map(|m| m.keys().cloned().collect()).unwrap_or_default();
+    labels.sort();
+    let mut toks: Vec<(String, String)> = labels.iter().map(|l| man_token(l, &v["manifests"][l], names)).collect();
+    toks.sort();
+    toks.into_iter().map(|t| t.1).collect::<Vec<_>>().join("+")
+}
+
+fn actions_of(a: &Value) -> (String, usize) {
+    let acts: Vec<String> = a["data"]["actions"].as_array().into_iter().flatten().map(|x| x["action"].as_str().unwrap_or("?").to_string()).collect();
+    let nt = a["data"].get("templates").and_then(|t| t.as_array()).map(|t| t.len()).unwrap_or(0);
+    (if acts.is_empty() { "-".into() } else { acts.join("+") }, nt)
+}
+
+fn asn_token(a: &Value) -> String {
+    let l = a["label"].as_str().unwrap_or("?");
+    let (acts, nt) = if l.starts_with("c2pa.actions") { actions_of(a) } else { ("-".into(), 0) };
+    format!(
+        "{l}:{}:{}:{acts}:{nt}",
+        if a.get("kind").and_then(|k| k.as_str()) == Some("Json") { "j" } else { "c" },
+        if a.get("created").and_then(|k| k.as_bool()).unwrap_or(false) { "c" } else { "g" }
+    )
+}
+
+fn redaction_token(uri: &str, names: &mut Names) -> String {
+    // self#jumbf=/c2pa/<label>/c2pa.assertions/<assertion>
+    let rest = uri.trim_start_matches("self#jumbf=/c2pa/");
+    match rest.split_once("/c2pa.assertions/") {
+        Some((l, a)) => format!("{}!{a}", names.name(l)),
+        None => format!("?{uri}"),
+    }
+}
+
+fn gens_token(d: &Value) -> String {
+    let g = d["claim_generator_info"].as_array().cloned().unwrap_or_default();
+    format!("{}.{}", g.len(), if g.first().map(|x| x.get("org.contentauth.c2pa_rs").is_some()).unwrap_or(false) { 1 } else { 0 })
+}
+
+fn state_of(r: Option<c2pa::ValidationState>) -> &'static str {
+    match r {
+        None => "-",
+        Some(c2pa::ValidationState::Invalid) => "i",
+        Some(_) => "v",
+    }
+}
+
+/// the state line of a builder (request body and `chain` reply)
+fn abstract_builder(b: &Builder, names: &mut Names, settings: &str) -> String {
+    let v: Value = serde_json::from_str(&b.to_string()).unwrap_or(Value::Null);
+    let mut ing = vec![];
+    for (k, i) in b.definition.ingredients.iter().enumerate() {
+        let j = &v["ingredients"][k];
+        let active = i.active_manifest().map(|a| a.to_string());
+        let thumb = match i.thumbnail_ref() {
+            None => "-".to_string(),
+            Some(t) if t.identifier.starts_with("self#jumbf=") => {
+                if active.as_deref().map(|a| t.identifier.contains(a)).unwrap_or(false) {
+                    if t.hash.is_some() { "ownh".into() } else { "own".into() }
+                } else {
+                    "outer".into()
+                }
+            }
+            Some(_) => "res".into(),
+        };
+        let store = match i.manifest_data() {
+            Some(d) => {
+                if let Some(a) = &active {
+                    names.name(a);
+                }
+                store_tokens(&d, names, settings)
+            }
+            None => "-".into(),
+        };
+        let label = match j.get("label").and_then(|x| x.as_str()) {
+            None => "-".to_string(),
+            Some(l) => match l.split_once("__") {
+                Some((base, n)) => format!("{base}#{n}"),
+                None => format!("{l}#0"),
+            },
+        };
+        ing.push(format!(
+            "{}/{thumb}/{}/{}/{}/{label}/{store}",
+            j["relationship"].as_str().unwrap_or("componentOf"),
+            state_of(i.validation_results().map(|r| r.validation_state())),
+            i.validation_status().map(|s| s.len()).unwrap_or(0),
+            active.as_deref().map(|a| names.name(a)).unwrap_or("-".into()),
+        ));
+    }
+    let asn: Vec<String> = v["assertions"].as_array().into_iter().flatten().map(asn_token).collect();
+    let red = match v.get("redactions").and_then(|r| r.as_array()) {
+        None => "-".to_string(),
+        Some(r) if r.is_empty() => "none".into(),
+        Some(r) => r.iter().map(|u| redaction_token(u.as_str().unwrap_or(""), names)).collect::<Vec<_>>().join(","),
+    };
+    let intent = match v.get("intent") {
+        None | Some(Value::Null) => "-".to_string(),
+        Some(Value::String(s)) => s.clone(),
+        Some(Value::Object(o)) => o.keys().next().cloned().unwrap_or("-".into()),
+        _ => "?".into(),
+    };
+    format!(
+        "v={} title={} thumb={} gens={} alg={} intent={intent} noembed={} remote={} label={} red={red} asn={} ing={}",
+        v.get("claim_version").and_then(|x| x.as_u64()).unwrap_or(2),
+        if v.get("title").map(|t| !t.is_null()).unwrap_or(false) { 1 } else { 0 },
+        v.get("thumbnail").and_then(|t| t.get("format")).and_then(|f| f.as_str()).unwrap_or("-"),
+        gens_token(&v),
+        v.get("hash_alg").and_then(|x| x.as_str()).unwrap_or("-"),
+        if v.get("no_embed").and_then(|x| x.as_bool()).unwrap_or(false) { 1 } else { 0 },
+        if v.get("remote_url").map(|t| !t.is_null()).unwrap_or(false) { 1 } else { 0 },
+        if v.get("label").map(|t| !t.is_null()).unwrap_or(false) { 1 } else { 0 },
+        if asn.is_empty() { "-".to_string() } else { asn.join(",") },
+        if ing.is_empty() { "-".to_string() } else { ing.join(";") },
+    )
+}
+
+fn resolve(reader: &Reader, id: &str) -> Result<Vec<u8>, String> {
+    let mut out = Cursor::new(Vec::new());
+    reader.resource_to_stream(id, &mut out).map(|_| out.into_inner()).map_err(|e| err_class(&e))
+}
+
+/// what was signed: the asset, the manifest bytes `sign` returned
+struct SignedOut {
+    asset: Vec<u8>,
+    manifest: Vec<u8>,
+}
+
+struct ReadOut {
+    state: String,
+    rep: Value,
+    reader: Reader,
+    embedded: bool,
+    remote: bool,
+}
+
+fn read_signed(fmt: &str, s: &SignedOut, src: &[u8], settings: &str) -> Result<ReadOut, String> {
+    let ctx = || Context::new().with_settings(settings).map_err(|e| format!("{e:?}"));
+    match Reader::from_context(ctx()?).with_stream(fmt, Cursor::new(s.asset.clone())) {
+        Ok(r) => {
+            let rep: Value = serde_json::from_str(&r.json()).map_err(|e| e.to_string())?;
+            Ok(ReadOut { state: format!("{:?}", r.validation_state()), rep, embedded: r.is_embedded(), remote: r.remote_url().is_some(), reader: r })
+        }
+        Err(e) => {
+            // no embedded manifest: read the returned manifest bytes against the signed asset
+            let remote = matches!(e, c2pa::Error::RemoteManifestUrl(_));
+            let _ = src;
+            let r = Reader::from_context(ctx()?)
+                .with_manifest_data_and_stream(&s.manifest, fmt, Cursor::new(s.asset.clone()))
+                .map_err(|e2| format!("embedded read: {e:?}; manifest-bytes read: {e2:?}"))?;
+            let rep: Value = serde_json::from_str(&r.json()).map_err(|e| e.to_string())?;
+            Ok(ReadOut { state: format!("{:?}", r.validation_state()), rep, embedded: false, remote, reader: r })
+        }
+    }
+}
+
+/// the `sign` reply: the model's `reportStr`
+fn abstract_report(ro: &ReadOut, names: &mut Names) -> String {
+    let rep = &ro.rep;
+    let active = rep["active_manifest"].as_str().unwrap_or("").to_string();
+    let m = &rep["manifests"][&active];
+    let asn: Vec<String> = m["assertions"].as_array().into_iter().flatten().map(|a| format!("{}#{}", asn_token(a), a.get("instance").and_then(|x| x.as_u64()).unwrap_or(0))).collect();
+    let mut ing = vec![];
+    for (k, i) in m["ingredients"].as_array().into_iter().flatten().enumerate() {
+        let act = i.get("active_manifest").and_then(|x| x.as_str());
+        let label = match i.get("label").and_then(|x| x.as_str()).unwrap_or("?").split_once("__") {
+            Some((b, n)) => format!("{b}#{n}"),
+            None => format!("{}#0", i.get("label").and_then(|x| x.as_str()).unwrap_or("?")),
+        };
+        let typed = ro.reader.active_manifest().and_then(|am| am.ingredients().get(k));
+        let results = state_of(typed.and_then(|t| t.validation_results()).map(|r| r.validation_state()));
+        let nst = i.get("validation_status").and_then(|s| s.as_array()).map(|s| s.len()).unwrap_or(0);
+        let thumb = match i.get("thumbnail").and_then(|t| t.get("identifier")).and_then(|x| x.as_str()) {
+            None => "-".to_string(),
+            Some(id) => match resolve(&ro.reader, id) {
+                Err(e) => format!("unresolved-{e}"),
+                Ok(bytes) => {
+                    let own = act.and_then(|a| rep["manifests"][a].get("thumbnail")).and_then(|t| t.get("identifier")).and_then(|x| x.as_str()).and_then(|oid| resolve(&ro.reader, oid).ok());
+                    if own.as_deref() == Some(bytes.as_slice()) { "own".into() } else { "img".into() }
+                }
+            },
+        };
+        ing.push(format!("{}/{label}/{}/{results}/{nst}/{thumb}", i["relationship"].as_str().unwrap_or("componentOf"), act.map(|a| names.name(a)).unwrap_or("-".into())));
+    }
+    let red: Vec<String> = m.get("redactions").and_then(|r| r.as_array()).into_iter().flatten().map(|u| redaction_token(u.as_str().unwrap_or(""), names)).collect();
+    let mut labels: Vec<String> = rep["manifests"].as_object().map(|x| x.keys().filter(|k| **k != active).cloned().collect()).unwrap_or_default();
+    labels.sort();
+    let mut mans: Vec<(String, String)> = labels.iter().map(|l| man_token(l, &rep["manifests"][l], names)).collect();
+    mans.sort();
+    format!(
+        "v={} title={} thumb={} gens={} embedded={} remote={} red={} asn={} ing={} mans={}",
+        if active.contains("urn:c2pa:") { 2 } else { 1 },
+        if m.get("title").is_some() { 1 } else { 0 },
+        m.get("thumbnail").and_then(|t| t.get("format")).and_then(|f| f.as_str()).unwrap_or("-"),
+        gens_token(m),
+        if ro.embedded { 1 } else { 0 },
+        if ro.remote { 1 } else { 0 },
+        if red.is_empty() { "-".to_string() } else { red.join(",") },
+        if asn.is_empty() { "-".to_string() } else { asn.join(",") },
+        if ing.is_empty() { "-".to_string() } else { ing.join(";") },
+        if mans.is_empty() { "-".to_string() } else { mans.into_iter().map(|t| t.1).collect::<Vec<_>>().join("+") },
+    )
+}
+
+// ---------------------------------------------------------------------------------------------
+// oracle: complete comparison of the two reports
+
+/// What two signings of the same content necessarily differ in: the active manifest's label
+/// (wherever it occurs), its `instance_id`, times, hashes and signature members. Resource
+/// identifiers are replaced by the digest of the bytes they resolve to.
+fn normalise_report(ro: &ReadOut) -> Value {
+    let active = ro.rep.get("active_manifest").and_then(|x| x.as_str()).unwrap_or("").to_string();
+    fn go(v: &Value, active: &str, reader: &Reader, top_active: bool) -> Value {
         match v {
             Value::Object(m) => {
                 let mut o = serde_json::Map::new();
                 for (k, x) in m {
-                    let k2 = scrub_str(k, active);
-                    let here_active = in_active || k == active;
+                    let k2 = if active.is_empty() { k.clone() } else { k.replace(active, "<active>") };
                     if ["time", "hash", "cert_serial_number", "signature", "validationTime", "pad", "pad2"].contains(&k.as_str()) {
                         o.insert(k2, Value::String("<volatile>".into()));
-                    } else if k == "instance" && x.is_number() {
-                        // assertion instance number
-                    } else if k == "thumbnail" && x.get("identifier").is_some() {
-                        o.insert(k2, json!({"format": x["format"], "identifier": "<thumbnail>"}));
-                    } else if k == "assertions" && in_active && x.is_array() {
-                        // order of the assertion list follows claim bookkeeping (created before
-                        // gathered, numbering): compared as a multiset of (label, data, kind, created)
-                        let mut items: Vec<Value> = x.as_array().unwrap().iter().map(|e| go(e, active, in_active)).collect();
-                        items.sort_by_key(canon_json);
-                        o.insert(k2, Value::Array(items));
+                    } else if k == "instance_id" && top_active {
+                        o.insert(k2, Value::String("<instance-id>".into()));
+                    } else if k == "identifier" && x.is_string() && m.contains_key("format") {
+                        let id = x.as_str().unwrap_or("");
+                        let d = match resolve(reader, id) {
+                            Ok(b) => format!("bytes:{}:{}", b.len(), hex(&defgen::sha("sha256", &[&b])[..8])),
+                            Err(e) => format!("unresolvable:{e}"),
+                        };
+                        o.insert(k2, Value::String(d));
                     } else {
-                        o.insert(k2, go(x, active, here_active));
+                        o.insert(k2, go(x, active, reader, k == active));
                     }
                 }
                 Value::Object(o)
             }
-            Value::Array(a) => Value::Array(a.iter().map(|x| go(x, active, in_active)).collect()),
-            Value::String(s) => Value::String(scrub_str(s, active)),
+            Value::Array(a) => Value::Array(a.iter().map(|x| go(x, active, reader, false)).collect()),
+            Value::String(s) => Value::String(if active.is_empty() { s.clone() } else { s.replace(active, "<active>") }),
             other => other.clone(),
         }
     }
-    go(rep, &active, false)
-}
-
-/// thumbnails of the active manifest (claim + ingredients) by content
-fn thumbnails(rep: &Value, reader: &c2pa::Reader) -> Vec<String> {
-    let active = rep.get("active_manifest").and_then(|x| x.as_str()).unwrap_or("");
-    let m = &rep["manifests"][active];
-    let mut ids: Vec<(String, String)> = vec![];
-    if let Some(t) = m.get("thumbnail") {
-        ids.push(("claim".into(), t["identifier"].as_str().unwrap_or("").to_string()));
-    }
-    for (i, ing) in m["ingredients"].as_array().into_iter().flatten().enumerate() {
-        if let Some(t) = ing.get("thumbnail") {
-            ids.push((format!("ingredient{i}"), t["identifier"].as_str().unwrap_or("").to_string()));
+    let mut v = go(&ro.rep, &active, &ro.reader, false);
+    // The success / informational lists of the active manifest enumerate the hashed URIs of the
+    // new claim's own boxes in claim order. Where an ingredient thumbnail is *stored* (referenced
+    // in the ingredient's manifest, or copied into a `c2pa.thumbnail.ingredient` assertion / data
+    // box of the new claim) is not content — the bytes are compared through the identifier
+    // digests above — so the entries about such copies are left out and the lists are compared
+    // as multisets. The failure list and everything about ingredients is compared as it is.
+    if let Some(am) = v.get_mut("validation_results").and_then(|r| r.get_mut("activeManifest")).and_then(|a| a.as_object_mut()) {
+        for k in ["success", "informational"] {
+            if let Some(list) = am.get_mut(k).and_then(|l| l.as_array_mut()) {
+                list.retain(|e| {
+                    let u = e.get("url").and_then(|u| u.as_str()).unwrap_or("");
+                    !(u.contains("/c2pa.assertions/c2pa.thumbnail.ingredient") || u.contains("/c2pa.databoxes/"))
+                });
+                list.sort_by_key(canon_json);
+            }
         }
     }
-    ids.into_iter()
-        .map(|(who, id)| {
-            let mut out = Cursor::new(Vec::new());
-            match reader.resource_to_stream(&id, &mut out) {
-                Ok(_) => format!("{who}:{}:{}:{}", out.get_ref().len(), vh::common::hex(&defgen::sha("sha256", &[out.get_ref()])[..8]), if out.get_ref().starts_with(&[0xff, 0xd8]) { "jpeg" } else if out.get_ref().len() > 8 && &out.get_ref()[4..8] == b"jumb" { "JUMBF-not-an-image" } else { "other" }),
-                Err(e) => format!("{who}:unreadable:{e:?}"),
-            }
-        })
-        .collect()
+    v
 }
 
-/// first differing path between two JSON values
-fn first_diff(a: &Value, b: &Value, path: &str) -> Option<String> {
+/// every differing path between two JSON values
+fn all_diffs(a: &Value, b: &Value, path: &str, out: &mut Vec<(String, String)>) {
+    let short = |v: &Value| {
+        let s = v.to_string();
+        s.chars().take(140).collect::<String>()
+    };
     match (a, b) {
         (Value::Object(x), Value::Object(y)) => {
             for (k, v) in x {
                 match y.get(k) {
-                    None => return Some(format!("{path}/{k}: only in direct ({})", &v.to_string()[..v.to_string().len().min(120)])),
-                    Some(w) => {
-                        if let Some(d) = first_diff(v, w, &format!("{path}/{k}")) {
-                            return Some(d);
-                        }
-                    }
+                    None => out.push((format!("{path}/{k}"), format!("only in direct ({})", short(v)))),
+                    Some(w) => all_diffs(v, w, &format!("{path}/{k}"), out),
                 }
             }
             for (k, v) in y {
                 if !x.contains_key(k) {
-                    return Some(format!("{path}/{k}: only in restored ({})", &v.to_string()[..v.to_string().len().min(120)]));
+                    out.push((format!("{path}/{k}"), format!("only in restored ({})", short(v))));
                 }
             }
-            None
         }
         (Value::Array(x), Value::Array(y)) => {
             if x.len() != y.len() {
-                return Some(format!("{path}: array length {} vs {}", x.len(), y.len()));
+                out.push((path.to_string(), format!("array length {} vs {} (direct {} restored {})", x.len(), y.len(), short(a), short(b))));
             }
             for (i, (v, w)) in x.iter().zip(y.iter()).enumerate() {
-                if let Some(d) = first_diff(v, w, &format!("{path}[{i}]")) {
-                    return Some(d);
-                }
+                all_diffs(v, w, &format!("{path}[{i}]"), out);
             }
-            None
         }
         _ => {
-            if canon_json(a) == canon_json(b) {
-                None
-            } else {
-                let (sa, sb) = (a.to_string(), b.to_string());
-                Some(format!("{path}: direct {} vs restored {}", &sa[..sa.len().min(160)], &sb[..sb.len().min(160)]))
+            if canon_json(a) != canon_json(b) {
+                out.push((path.to_string(), format!("direct {} vs restored {}", short(a), short(b))));
             }
         }
     }
 }
 
-/// definition of a builder as the model protocol prints it
-fn definition_reply(b: &Builder) -> String {
-    let v: Value = serde_json::from_str(&b.to_string()).unwrap_or(Value::Null);
-    let d = if v.get("definition").is_some() { &v["definition"] } else { &v };
-    let asn: Vec<String> = d["assertions"]
-        .as_array()
-        .map(|a| {
-            a.iter()
-                .map(|x| {
-                    format!(
-                        "{}:{}:{}",
-                        x["label"].as_str().unwrap_or("?"),
-                        if x.get("kind").and_then(|k| k.as_str()) == Some("Json") { "j" } else { "c" },
-                        if x.get("created").and_then(|k| k.as_bool()).unwrap_or(false) { "c" } else { "g" }
-                    )
-                })
-                .collect()
-        })
-        .unwrap_or_default();
-    format!(
-        "v={} thumb={} alg={} asn={}",
-        d.get("claim_version").and_then(|x| x.as_u64()).unwrap_or(2),
-        if d.get("thumbnail").map(|t| !t.is_null()).unwrap_or(false) { 1 } else { 0 },
-        d.get("hash_alg").and_then(|x| x.as_str()).unwrap_or("-"),
-        if asn.is_empty() { "-".to_string() } else { asn.join(",") }
-    )
-}
-
-fn manifest_labels(report: &Value) -> Vec<String> {
-    let active = report.get("active_manifest").and_then(|x| x.as_str()).unwrap_or("");
-    let mut v: Vec<String> = report["manifests"].as_object().map(|m| m.keys().filter(|k| k.as_str() != active).cloned().collect()).unwrap_or_default();
-    v.sort();
-    v
+/// independent of the model: do assertions whose labels contain one another sit in different
+/// created/gathered classes? (then `Claim::next_instance` numbers them differently after the
+/// created-first reordering of a restored builder)
+fn plan_mixes_related_labels(p: &Plan) -> bool {
+    if p.supplied.claim_version < 2 {
+        return false;
+    }
+    let norm = |l: &str| if l.starts_with("c2pa.actions") { "c2pa.actions.v2".to_string() } else { l.to_string() };
+    let items: Vec<(String, bool)> = match &p.x.raw_assertions {
+        Some(raw) => raw.iter().map(|a| (norm(a["label"].as_str().unwrap_or("")), a.get("created").and_then(|c| c.as_bool()).unwrap_or(false))).collect(),
+        None => p.supplied.assertions.iter().enumerate().map(|(i, a)| (norm(&a.0), p.created.get(i).copied().unwrap_or(false) && a.0 != "stds.schema-org.CreativeWork")).collect(),
+    };
+    for (i, a) in items.iter().enumerate() {
+        for (j, b) in items.iter().enumerate() {
+            if i != j && a.1 != b.1 && b.0.contains(&a.0) {
+                return true;
+            }
+        }
+    }
+    false
 }
 
 fn main() {
     main_with("C22", run);
 }
 
-fn one_case(run: &mut Run, plan: &Plan, fmt: &str, src: &[u8], signer: &str, n: usize, tag: &str) {
-    let settings = base_settings();
-    let key = format!("{tag} fmt={fmt} signer={signer} chain={n} v={} alg={:?} n_asn={} def_ing={} stream_ing={:?} thumb={}", plan.supplied.claim_version, plan.supplied.hash_alg, plan.supplied.assertions.len(), plan.supplied.ingredients.len(), plan.stream_ings.iter().map(|i| i.kind).collect::<Vec<_>>(), plan.supplied.thumbnail.is_some());
+#[derive(Default)]
+struct Outcome {
+    direct_signed: bool,
+    archived: bool,
+    restored_signed: bool,
+    classes: Vec<String>,
+}
+
+fn one_case(run: &mut Run, plan: &Plan, fmt: &str, src: &[u8], signer: &str, n: usize, tag: &str) -> Outcome {
+    let mut oc = Outcome::default();
+    let settings = settings_for(plan);
+    let key = format!(
+        "{tag} fmt={fmt} signer={signer} chain={n} v={} alg={:?} n_asn={} def_ing={} stream_ing={:?} thumb={} xa={:?} xt={} intent={:?} noembed={} remote={} red={} icon={}",
+        plan.supplied.claim_version,
+        plan.supplied.hash_alg,
+        plan.supplied.assertions.len(),
+        plan.supplied.ingredients.len(),
+        plan.stream_ings.iter().map(|i| format!("{}{}", i.kind, if i.user_thumb { "+thumb" } else { "" })).collect::<Vec<_>>(),
+        plan.supplied.thumbnail.is_some(),
+        plan.x.xa,
+        plan.x.xt,
+        plan.x.intent,
+        plan.x.no_embed,
+        plan.x.remote,
+        plan.x.redact.len(),
+        plan.x.icon
+    );
     run.count(&format!("chain:{n}"));
     run.count(&format!("claim_version:{}", plan.supplied.claim_version));
     for i in &plan.stream_ings {
-        run.count(&format!("stream-ingredient:{}", i.kind));
+        run.count(&format!("stream-ingredient:{}{}", i.kind, if i.user_thumb { "+user-thumbnail" } else { "" }));
     }
-    let asn: Vec<String> = plan.supplied.assertions.iter().enumerate().map(|(i, (l, _, k))| format!("{l}:{}:{}", if *k == "Json" { "j" } else { "c" }, if plan.created.get(i).copied().unwrap_or(false) { "c" } else { "g" })).collect();
-    let req = format!("C22 chain n={n} v={} thumb={} alg={} asn={}", plan.supplied.claim_version, if plan.supplied.thumbnail.is_some() { 1 } else { 0 }, plan.supplied.hash_alg.unwrap_or("-"), if asn.is_empty() { "-".to_string() } else { asn.join(",") });
+    for (f, on) in [("redaction", !plan.x.redact.is_empty()), ("settings-actions", !plan.x.xa.is_empty() || plan.x.xt > 0), ("intent", plan.x.intent.is_some()), ("no-embed/remote", plan.x.no_embed || plan.x.remote), ("generator-icon", plan.x.icon), ("definition-ingredient-thumbnail", plan.x.def_ing_thumb.iter().any(|t| *t))] {
+        if on {
+            run.count(&format!("feature:{f}"));
+        }
+    }
+    let mut names = Names::default();
+    // the original builder, abstracted (request body)
+    let (p0, s0) = (plan.clone(), settings.clone());
+    let state0 = match guarded(move || build(&p0, &s0)) {
+        Ok(Ok(b)) => abstract_builder(&b, &mut names, &settings),
+        Ok(Err(e)) => {
+            run.count("skipped:builder-not-constructed");
+            run.notes.push(format!("{key}: builder not constructed ({}); not a C22 case", err_class(&e)));
+            return oc;
+        }
+        Err(p) => {
+            let idx = run.reqs.len().saturating_sub(1);
+            run.fail(idx, "panic", format!("{key}: building panicked: {p}"));
+            return oc;
+        }
+    };
+    let tail = format!("{state0} xa={} xt={}", if plan.x.xa.is_empty() { "-".to_string() } else { plan.x.xa.join("+") }, plan.x.xt);
     // (a) direct
     let (p2, s2, src2, f2, sg2) = (plan.clone(), settings.clone(), src.to_vec(), fmt.to_string(), signer.to_string());
     let direct = guarded(move || build(&p2, &s2).and_then(|b| sign_builder(b, &f2, &src2, &sg2)));
+    let direct = match direct {
+        Ok(Ok(x)) => SignedOut { asset: x.0, manifest: x.1 },
+        Ok(Err(e)) => {
+            let es = format!("{e:?}");
+            run.count("skipped:original-builder-does-not-sign");
+            run.count(&format!("skipped:original-builder-does-not-sign:{}", err_class(&e)));
+            run.notes.push(format!("{key}: the original builder does not sign ({}); not a C22 case", &es[..es.len().min(120)]));
+            return oc;
+        }
+        Err(p) => {
+            let idx = run.reqs.len().saturating_sub(1);
+            run.fail(idx, "panic", format!("{key}: direct signing panicked: {p}"));
+            return oc;
+        }
+    };
+    oc.direct_signed = true;
+    let d = match read_signed(fmt, &direct, src, &settings) {
+        Ok(d) => d,
+        Err(e) => {
+            let idx = run.reqs.len().saturating_sub(1);
+            run.fail(idx, "signed-asset-unreadable", format!("{key}: direct: {e}"));
+            return oc;
+        }
+    };
+    if d.state == "Invalid" {
+        run.count("skipped:original-signs-to-an-invalid-manifest");
+        run.notes.push(format!("{key}: the original builder signs to an Invalid manifest; not a C22 case"));
+        return oc;
+    }
+    run.case(format!("C22 sign n=0 {tail}"), abstract_report(&d, &mut names));
     // (b) through the chain
     let (p3, s3) = (plan.clone(), settings.clone());
     let restored = guarded(move || {
@@ -295,135 +673,167 @@ fn one_case(run: &mut Run, plan: &Plan, fmt: &str, src: &[u8], signer: &str, n: 
         }
         Ok::<Builder, c2pa::Error>(b)
     });
-    let direct = match direct {
-        Ok(Ok(x)) => x,
-        Ok(Err(e)) => {
-            let es = format!("{e:?}");
-            run.count("skipped:original-builder-does-not-sign");
-            run.notes.push(format!("{key}: the original builder does not sign ({}); not a C22 case", &es[..es.len().min(120)]));
-            return;
-        }
-        Err(p) => {
-            let idx = run.reqs.len().saturating_sub(1);
-            run.fail(idx, "panic", format!("{key}: direct signing panicked: {p}"));
-            return;
-        }
-    };
     let restored = match restored {
         Err(p) => {
-            let idx = run.case(req, "panic".into());
+            let idx = run.case(format!("C22 chain n={n} {tail}"), "panic".into());
             run.fail(idx, "panic", format!("{key}: archive round trip panicked: {p}"));
-            return;
+            return oc;
         }
         Ok(Err(e)) => {
-            let idx = run.case(req, "restore-error".into());
+            let c = err_class(&e);
+            let idx = run.case(format!("C22 chain n={n} {tail}"), format!("err:{c}"));
             let es = format!("{e:?}");
-            run.fail(idx, "restore-failed", format!("{key}: to_archive/with_archive failed: {}", &es[..es.len().min(300)]));
-            return;
+            let class = if plan.x.intent == Some("edit") && !plan.stream_ings.iter().any(|i| i.relationship == "parentOf") && c == "badparam" {
+                // the premise of the property (an archive the builder wrote) is not met
+                run.count("archive-not-written:edit-intent-without-parent");
+                run.notes.push(format!("{key}: Builder::sign takes the source asset as parent, Builder::to_archive fails ({})", &es[..es.len().min(160)]));
+                return oc;
+            } else if !plan.x.redact.is_empty() && c == "redactionnotfound" && n >= 2 {
+                "restored-sign-failed-redaction-reapplied"
+            } else {
+                "restore-failed"
+            };
+            run.fail(idx, class, format!("{key}: to_archive/with_archive failed: {}", &es[..es.len().min(300)]));
+            oc.classes.push(class.into());
+            return oc;
         }
         Ok(Ok(b)) => b,
     };
-    let idx = run.case(req, definition_reply(&restored));
+    oc.archived = true;
+    let idx = run.case(format!("C22 chain n={n} {tail}"), abstract_builder(&restored, &mut names, &settings));
     let (f4, src4, sg4) = (fmt.to_string(), src.to_vec(), signer.to_string());
     let via = match guarded(std::panic::AssertUnwindSafe(move || sign_builder(restored, &f4, &src4, &sg4))) {
-        Ok(Ok(x)) => x,
+        Ok(Ok(x)) => SignedOut { asset: x.0, manifest: x.1 },
         Ok(Err(e)) => {
+            let c = err_class(&e);
+            run.case(format!("C22 sign n={n} {tail}"), format!("signerr:{c}"));
             let es = format!("{e:?}");
-            run.fail(idx, "restored-sign-failed", format!("{key}: the original builder signs, the restored one does not: {}", &es[..es.len().min(300)]));
-            return;
+            let two_actions_reordered = plan.x.raw_assertions.as_ref().map(|r| r.iter().filter(|a| a["label"].as_str().unwrap_or("").starts_with("c2pa.actions")).count() >= 2).unwrap_or(false);
+            let class = if !plan.x.redact.is_empty() && c == "redactionnotfound" {
+                "restored-sign-failed-redaction-reapplied"
+            } else if two_actions_reordered && c == "badparam" {
+                "restored-sign-failed-actions-reordered"
+            } else {
+                "restored-sign-failed"
+            };
+            run.fail(idx, class, format!("{key}: the original builder signs, the restored one does not: {}", &es[..es.len().min(300)]));
+            oc.classes.push(class.into());
+            return oc;
         }
         Err(p) => {
             run.fail(idx, "panic", format!("{key}: signing the restored builder panicked: {p}"));
-            return;
+            return oc;
         }
     };
-    let r0 = read(fmt, &direct.0, &settings);
-    let r1 = read(fmt, &via.0, &settings);
-    let ((st0, rep0, reader0), (st1, rep1, reader1)) = match (r0, r1) {
-        (Ok(a), Ok(b)) => (a, b),
-        (a, b) => {
-            run.fail(idx, "signed-asset-unreadable", format!("{key}: direct {:?} restored {:?}", a.err(), b.err()));
-            return;
+    oc.restored_signed = true;
+    let r = match read_signed(fmt, &via, src, &settings) {
+        Ok(r) => r,
+        Err(e) => {
+            run.fail(idx, "signed-asset-unreadable", format!("{key}: restored: {e}"));
+            return oc;
         }
     };
-    if st0 != st1 {
-        run.fail(idx, "restored-state-differs", format!("{key}: direct {st0}, restored {st1}"));
-    }
-    let strip_success = |mut v: Value| -> Value {
-        // the success/informational lists of the active manifest enumerate its own assertion
-        // URIs (numbering, order); the failures, the state and the ingredient deltas are compared
-        if let Some(am) = v.get_mut("validation_results").and_then(|r| r.get_mut("activeManifest")).and_then(|a| a.as_object_mut()) {
-            am.remove("success");
-            am.remove("informational");
-        }
-        v
-    };
-    let (a0, a1) = (strip_success(abstract_report(&rep0)), strip_success(abstract_report(&rep1)));
+    run.case(format!("C22 sign n={n} {tail}"), abstract_report(&r, &mut names));
     let mut ok = true;
-    let (t0, t1) = (thumbnails(&rep0, &reader0), thumbnails(&rep1, &reader1));
-    if t0 != t1 {
+    let mut fail = |run: &mut Run, class: &str, detail: String, oc: &mut Outcome| {
+        run.fail(idx, class, detail);
+        oc.classes.push(class.to_string());
+    };
+    if d.state != r.state {
         ok = false;
-        let ids = |rep: &Value| -> Vec<String> {
-            let a = rep.get("active_manifest").and_then(|x| x.as_str()).unwrap_or("");
-            rep["manifests"][a]["ingredients"].as_array().into_iter().flatten().map(|i| i.get("thumbnail").map(|t| t["identifier"].as_str().unwrap_or("").to_string()).unwrap_or("-".into())).collect()
+        fail(run, "restored-state-differs", format!("{key}: direct {}, restored {}", d.state, r.state), &mut oc);
+    }
+    if d.embedded != r.embedded || d.remote != r.remote {
+        ok = false;
+        let class = if plan.x.no_embed || plan.x.remote { "restored-embedding-mode-differs" } else { "restored-report-differs" };
+        fail(run, class, format!("{key}: direct embedded={} remote-url={}, restored embedded={} remote-url={}", d.embedded, d.remote, r.embedded, r.remote), &mut oc);
+    }
+    // complete comparison, then attribution of the differing paths
+    let mut diffs = vec![];
+    all_diffs(&normalise_report(&d), &normalise_report(&r), "", &mut diffs);
+    if std::env::var("C22_DEBUG").map(|t| t == tag).unwrap_or(false) {
+        for (w, x) in [("direct", &d), ("restored", &r)] {
+            let v = normalise_report(x);
+            eprintln!("== {w} success");
+            for e in v["validation_results"]["activeManifest"]["success"].as_array().into_iter().flatten() {
+                eprintln!("   {} {}", e["code"], e["url"]);
+            }
+            eprintln!("== {w} assertions {:?}", v["manifests"]["<active>"]["assertions"].as_array().map(|a| a.iter().map(|x| format!("{}#{}:{}", x["label"], x.get("instance").map(|i| i.to_string()).unwrap_or_default(), x.get("created").map(|i| i.to_string()).unwrap_or_default())).collect::<Vec<_>>()));
+        }
+    }
+    let active_path = "/manifests/<active>";
+    let ing_thumb_path = |p: &str| p.starts_with(&format!("{active_path}/ingredients[")) && p.contains("]/thumbnail");
+    let signed_valid_ing = plan.stream_ings.iter().any(|i| matches!(i.kind, "signed" | "nested"));
+    let signed_ing_user_thumb = plan.stream_ings.iter().any(|i| i.user_thumb && i.kind != "unsigned");
+    let mixes = plan_mixes_related_labels(plan);
+    let archive_label = plan.x.raw_assertions.is_none() && plan.supplied.assertions.iter().any(|a| a.0.starts_with("org.contentauth.archive.metadata"));
+    let mut by_class: Vec<(&'static str, Vec<String>)> = vec![];
+    let mut push = |class: &'static str, d: String| match by_class.iter_mut().find(|x| x.0 == class) {
+        Some(x) => x.1.push(d),
+        None => by_class.push((class, vec![d])),
+    };
+    for (p, what) in &diffs {
+        let line = format!("{p}: {what}");
+        let class: &'static str = if ing_thumb_path(p) && signed_ing_user_thumb {
+            "restored-ingredient-user-thumbnail-replaced"
+        } else if ing_thumb_path(p) && plan.supplied.claim_version == 1 && n >= 2 && signed_valid_ing {
+            "restored-ingredient-thumbnail-differs-v1-claim"
+        } else if (!plan.x.xa.is_empty() || plan.x.xt > 0) && p.starts_with(&format!("{active_path}/assertions[")) && (p.contains("]/data/actions") || p.contains("]/data/templates")) {
+            "restored-settings-actions-duplicated"
+        } else if archive_label && (p.starts_with(&format!("{active_path}/assertions")) || p.starts_with("/validation_results/activeManifest/success")) {
+            "restored-archive-label-assertion-dropped"
+        } else if mixes && (p.ends_with("/instance") || ((p.starts_with("/validation_results/activeManifest/success[") || p.starts_with("/validation_results/activeManifest/informational[")) && (p.ends_with("/url") || p.ends_with("/explanation"))) || (p.starts_with(&format!("{active_path}/assertions[")) && p.ends_with("/label"))) {
+            "restored-assertion-instances-differ"
+        } else {
+            "restored-report-differs"
         };
-        let class = if plan.supplied.claim_version == 1 { "restored-ingredient-thumbnail-differs-v1-claim" } else { "restored-resources-differ" };
-        run.fail(idx, class, format!("{key}: thumbnails direct {t0:?} restored {t1:?}; ingredient thumbnail identifiers direct {:?} restored {:?}", ids(&rep0), ids(&rep1)));
+        push(class, line);
     }
-    if let Some(d) = first_diff(&a0, &a1, "") {
+    for (class, lines) in by_class {
         ok = false;
-        let class = if plan.supplied.claim_version == 1 && d.contains("/thumbnail") { "restored-ingredient-thumbnail-differs-v1-claim" } else { "restored-report-differs" };
-        run.fail(idx, class, format!("{key}: {d}"));
+        let shown: Vec<String> = lines.iter().take(6).cloned().collect();
+        fail(run, class, format!("{key}: {} differing path(s): {}", lines.len(), shown.join(" | ")), &mut oc);
     }
-    if manifest_labels(&rep0) != manifest_labels(&rep1) {
-        ok = false;
-        run.fail(idx, "restored-ingredient-manifests-differ", format!("{key}: direct {:?} restored {:?}", manifest_labels(&rep0), manifest_labels(&rep1)));
-    }
-    // the restored signing must itself reflect the definition (definition-only ingredients come
-    // first, then the stream ingredients)
-    let mut expect = plan.supplied.clone();
-    if expect.claim_version >= 2 {
-        // a version 2 claim lists created assertions before gathered ones
-        let flags: Vec<bool> = (0..expect.assertions.len()).map(|i| plan.created.get(i).copied().unwrap_or(false)).collect();
-        let mut ordered = vec![];
-        for want in [true, false] {
-            for (i, a) in expect.assertions.iter().enumerate() {
-                if flags[i] == want {
-                    ordered.push(a.clone());
+    // the restored signing must itself reflect the definition (C03 oracle), for plans the C03
+    // oracle describes (no extras that change the assertion payloads)
+    if plan.x.raw_assertions.is_none() && plan.x.xa.is_empty() && plan.x.xt == 0 && plan.x.intent.is_none() && plan.x.redact.is_empty() && !archive_label {
+        let mut expect = plan.supplied.clone();
+        if expect.claim_version >= 2 {
+            let flags: Vec<bool> = (0..expect.assertions.len()).map(|i| plan.created.get(i).copied().unwrap_or(false) && expect.assertions[i].0 != "stds.schema-org.CreativeWork").collect();
+            let mut ordered = vec![];
+            for want in [true, false] {
+                for (i, a) in expect.assertions.iter().enumerate() {
+                    if flags[i] == want {
+                        ordered.push(a.clone());
+                    }
                 }
             }
+            expect.assertions = ordered;
         }
-        expect.assertions = ordered;
-    }
-    if !plan.stream_ings.is_empty() {
-        // compare_report checks definition ingredients only; skip the count check by trimming
-        let active = rep1.get("active_manifest").and_then(|x| x.as_str()).unwrap_or("").to_string();
-        let n_rep = rep1["manifests"][&active]["ingredients"].as_array().map(|a| a.len()).unwrap_or(0);
+        let active = r.rep.get("active_manifest").and_then(|x| x.as_str()).unwrap_or("").to_string();
+        let n_rep = r.rep["manifests"][&active]["ingredients"].as_array().map(|a| a.len()).unwrap_or(0);
         if n_rep != plan.supplied.ingredients.len() + plan.stream_ings.len() {
             ok = false;
-            run.fail(idx, "report-ingredient-count-differs", format!("{key}: supplied {} reported {n_rep}", plan.supplied.ingredients.len() + plan.stream_ings.len()));
+            fail(run, "report-ingredient-count-differs", format!("{key}: supplied {} reported {n_rep}", plan.supplied.ingredients.len() + plan.stream_ings.len()), &mut oc);
         }
-        expect.ingredients.clear();
-        let mut rep1b = rep1.clone();
-        rep1b["manifests"][&active]["ingredients"] = json!([]);
-        for (class, detail) in compare_report(&expect, &rep1b, &reader1) {
-            if class == "report-assertion-order-differs" {
-                continue; // order is claim bookkeeping (see abstract_report)
-            }
-            ok = false;
-            run.fail(idx, class, format!("{key} (restored): {detail}"));
+        // compare_report describes definition-only ingredients without thumbnails
+        let mut rep1b = r.rep.clone();
+        if !plan.stream_ings.is_empty() || plan.x.def_ing_thumb.iter().any(|t| *t) {
+            expect.ingredients.clear();
+            rep1b["manifests"][&active]["ingredients"] = json!([]);
         }
-    } else {
-        for (class, detail) in compare_report(&expect, &rep1, &reader1) {
-            if class == "report-assertion-order-differs" {
-                continue;
+        if plan.x.icon {
+            if let Some(g) = rep1b["manifests"][&active]["claim_generator_info"][0].as_object_mut() {
+                g.remove("icon");
             }
+        }
+        for (class, detail) in compare_report(&expect, &rep1b, &r.reader) {
             ok = false;
-            run.fail(idx, class, format!("{key} (restored): {detail}"));
+            fail(run, class, format!("{key} (restored): {detail}"), &mut oc);
         }
     }
     // hash algorithm of the claim (not part of the reported content; recorded, see notes)
-    if let (Ok((alg0, _)), Ok((alg1, _))) = (c2pa::verif_hooks::c03::active_data_hashes(&direct.1), c2pa::verif_hooks::c03::active_data_hashes(&via.1)) {
+    if let (Ok((alg0, _)), Ok((alg1, _))) = (c2pa::verif_hooks::c03::active_data_hashes(&direct.manifest), c2pa::verif_hooks::c03::active_data_hashes(&via.manifest)) {
         if alg0 != alg1 {
             run.count("hash_alg-not-restored");
         } else {
@@ -433,33 +843,57 @@ fn one_case(run: &mut Run, plan: &Plan, fmt: &str, src: &[u8], signer: &str, n: 
     if ok {
         run.nontrivial(key);
     }
+    oc
+}
+
+fn pool_info(data: &[u8], fmt: &str) -> (Option<(String, Vec<String>)>, u8) {
+    let ctx = match Context::new().with_settings(base_settings().as_str()) {
+        Ok(c) => c,
+        Err(_) => return (None, 0),
+    };
+    match Reader::from_context(ctx).with_stream(fmt, Cursor::new(data.to_vec())) {
+        Ok(r) => {
+            let v: Value = serde_json::from_str(&r.json()).unwrap_or(Value::Null);
+            let a = v["active_manifest"].as_str().unwrap_or("").to_string();
+            let asns = v["manifests"][&a]["assertions"].as_array().into_iter().flatten().map(asn_label_with_instance).collect();
+            let cv = if a.contains("urn:c2pa:") { 2 } else { 1 };
+            (Some((a, asns)), cv)
+        }
+        Err(_) => (None, 0),
+    }
 }
 
 pub fn run(run: &mut Run, rng: &mut Rng) {
-    run.rule = "a generated builder (C03 definition generator + created flags + thumbnail resource + definition ingredients + stream ingredients unsigned/signed/tampered) is signed directly and after 1–3 to_archive/with_archive round trips; the abstracted reports (ids, instance ids, times, hashes, signature scrubbed), validation states and carried ingredient manifest labels must agree and the restored signing must reflect the definition; non-trivial = both signings succeeded and every comparison held; distinct by (format, signer, chain length, definition shape)".to_string();
+    run.rule = "a generated builder (C03 definition generator + created flags + claim thumbnail + generator icon + definition ingredients (± caller thumbnail) + stream ingredients unsigned/signed/tampered/nested-fixture (± caller thumbnail) + redaction + settings-driven actions/templates + Create/Edit intent + no_embed/remote_url) is signed directly and after 1–3 to_archive/with_archive round trips; every differing path of the two reports is collected (abstracted: the active manifest's own label and instance id, times, hashes, signature members; resource identifiers by the digest of what they resolve to) and attributed — accepted as a known finding only when the plan has that finding's feature and the path is one it explains; validation state, embedding mode and the C03 report oracle on the restored signing are checked too; non-trivial = both signings succeeded and every comparison held; distinct by (format, signer, chain length, definition shape, features)".to_string();
     let thorough = run.thorough();
     let sources: Vec<(&'static str, Vec<u8>)> = unsigned_sources().into_iter().filter_map(|(f, n)| std::fs::read(fixtures().join(n)).ok().filter(|d| d.len() <= 110_000).map(|d| (f, d))).collect();
     let small: Vec<&(&'static str, Vec<u8>)> = sources.iter().filter(|(f, d)| d.len() <= 70_000 && !is_bmff(f)).collect();
-    // ingredient pool: unsigned, signed, tampered
+    // ingredient pool: unsigned, signed (generated: version-2 claims), tampered, fixtures
     let mut pool: Vec<StreamIng> = vec![];
     for (f, d) in small.iter().map(|x| (x.0, &x.1)) {
-        pool.push(StreamIng { title: format!("unsigned {f}"), relationship: "componentOf", format: f.to_string(), data: d.clone(), kind: "unsigned" });
+        pool.push(StreamIng { title: format!("unsigned {f}"), relationship: "componentOf", format: f.to_string(), data: d.clone(), kind: "unsigned", info: None, claim_v: 0, user_thumb: false });
         if let Ok(signed) = vh::sign::sign_asset(f, d, None) {
             let mut t = signed.clone();
-            // flip one byte near the end of the asset (outside the manifest for these formats)
             let k = t.len() - 5;
             t[k] ^= 0x55;
-            pool.push(StreamIng { title: format!("signed {f}"), relationship: "componentOf", format: f.to_string(), data: signed, kind: "signed" });
-            pool.push(StreamIng { title: format!("tampered {f}"), relationship: "inputTo", format: f.to_string(), data: t, kind: "tampered" });
+            let (info, cv) = pool_info(&signed, f);
+            pool.push(StreamIng { title: format!("signed {f}"), relationship: "componentOf", format: f.to_string(), data: signed, kind: "signed", info, claim_v: cv, user_thumb: false });
+            pool.push(StreamIng { title: format!("tampered {f}"), relationship: "inputTo", format: f.to_string(), data: t, kind: "tampered", info: None, claim_v: cv, user_thumb: false });
         }
     }
-    for n in ["CA.jpg", "C.jpg", "XCA.jpg"] {
+    // fixture assets: CA.jpg / C.jpg (one manifest), XCA.jpg (tampered), and assets whose manifest
+    // chains are linked by `c2pa_manifest` (ocsp.jpg, CACAE-uri-CA.jpg, CIE-sig-CA.jpg,
+    // legacy_ingredient_hash.jpg) or by `activeManifest` (CACA.jpg)
+    let mut fixture_pool: Vec<StreamIng> = vec![];
+    for (n, kind) in [("CA.jpg", "signed"), ("C.jpg", "signed"), ("XCA.jpg", "tampered"), ("ocsp.jpg", "nested"), ("CACAE-uri-CA.jpg", "nested"), ("CACA.jpg", "nested"), ("CIE-sig-CA.jpg", "nested"), ("legacy_ingredient_hash.jpg", "nested")] {
         if let Ok(d) = std::fs::read(fixtures().join(n)) {
-            pool.push(StreamIng { title: n.to_string(), relationship: "componentOf", format: "image/jpeg".into(), data: d, kind: if n == "XCA.jpg" { "tampered" } else { "signed" } });
+            let (info, cv) = pool_info(&d, "image/jpeg");
+            fixture_pool.push(StreamIng { title: n.to_string(), relationship: "componentOf", format: "image/jpeg".into(), data: d, kind, info, claim_v: cv, user_thumb: false });
         }
     }
+    run.obligations.insert("fixture-ingredients-with-nested-manifests-present".into(), fixture_pool.iter().filter(|i| i.kind == "nested").count() >= 3);
     let signers = ["es256", "ps256", "ed25519", "ephemeral", "es384"];
-    let cases = if thorough { 6000 } else { 150 };
+    let cases = if thorough { 2500 } else { 150 };
     for i in 0..cases {
         let mut r = rng.fork();
         let (fmt, src) = *r.pick(&small);
@@ -467,49 +901,208 @@ pub fn run(run: &mut Run, rng: &mut Rng) {
         if r.chance(1, 2) {
             supplied.hash_alg = None;
         }
-        // (`stds.schema-org.CreativeWork` is always added as gathered by to_claim)
         let created: Vec<bool> = supplied.assertions.iter().enumerate().map(|(k, a)| k == 0 || (r.chance(1, 3) && a.0 != "stds.schema-org.CreativeWork")).collect();
         let mut stream_ings = vec![];
         for _ in 0..r.below(3) {
-            if !pool.is_empty() {
-                let mut ing = r.pick(&pool).clone();
+            // a version-1 claim cannot take a version-2 ingredient: choose among the compatible ones
+            let from_fixture = supplied.claim_version == 1 || r.chance(1, 2);
+            let cand: Vec<&StreamIng> = if from_fixture { fixture_pool.iter().collect() } else { pool.iter().collect() };
+            let cand: Vec<&StreamIng> = cand.into_iter().filter(|c| c.claim_v <= supplied.claim_version && (c.kind != "tampered" || r.chance(1, 3))).collect();
+            if !cand.is_empty() {
+                let mut ing = (*r.pick(&cand)).clone();
                 ing.relationship = *r.pick(&["componentOf", "inputTo"]);
+                ing.user_thumb = r.chance(1, 6);
                 stream_ings.push(ing);
             }
         }
-        let plan = Plan { supplied, created, stream_ings };
+        let mut x = Extras::default();
+        x.icon = r.chance(1, 6);
+        x.def_ing_thumb = supplied.ingredients.iter().map(|_| r.chance(1, 3)).collect();
+        match r.below(10) {
+            0 => {
+                x.xa = vec!["c2pa.edited"];
+                x.xt = r.below(2) as usize;
+            }
+            1 => {
+                x.no_embed = true;
+                x.remote = r.chance(1, 2);
+            }
+            2 => {
+                // redact one assertion of a signed ingredient's active manifest (not its actions)
+                for ing in &stream_ings {
+                    if let (Some((label, asns)), true) = (&ing.info, ing.kind != "tampered") {
+                        if let Some(a) = asns.iter().find(|a| !a.starts_with("c2pa.actions") && !a.starts_with("c2pa.hash")) {
+                            x.redact.push(format!("self#jumbf=/c2pa/{label}/c2pa.assertions/{a}"));
+                            break;
+                        }
+                    }
+                }
+            }
+            3 => {
+                // Create intent, no actions assertion of its own
+                if stream_ings.iter().all(|s| s.relationship != "parentOf") && supplied.claim_version >= 2 {
+                    x.intent = Some("create");
+                    x.raw_assertions = Some(supplied.assertions.iter().skip(1).map(|(l, d, k)| if *k == "Json" { json!({"label": l, "data": d, "kind": "Json"}) } else { json!({"label": l, "data": d}) }).collect());
+                }
+            }
+            4 => {
+                // Edit intent with an explicit parent
+                if let (Some(first), true) = (stream_ings.first_mut(), supplied.claim_version >= 2) {
+                    first.relationship = "parentOf";
+                    x.intent = Some("edit");
+                    x.raw_assertions = Some(supplied.assertions.iter().skip(1).map(|(l, d, k)| if *k == "Json" { json!({"label": l, "data": d, "kind": "Json"}) } else { json!({"label": l, "data": d}) }).collect());
+                }
+            }
+            _ => {}
+        }
+        let plan = Plan { supplied, created, stream_ings, x };
         let n = 1 + (i % 3);
         one_case(run, &plan, fmt, src, signers[i % signers.len()], n, &format!("R{i}"));
     }
-    // witnesses of Props/C22.lean, replayed (model correspondence: the reply must match)
-    if let Some((fmt, src)) = small.first().map(|x| (x.0, &x.1)) {
+    // ------------------------------------------------------------------------------------------
+    // witnesses of Props/C22.lean, replayed on the implementation; each one must show what the
+    // theorem says (an obligation), and the model must agree case by case (correspondence)
+    if let Some((fmt, src)) = sources.iter().find(|s| s.0 == "image/jpeg").map(|x| (x.0, &x.1)) {
         let mut r = rng.fork();
-        let mut supplied = gen_supplied(&mut r, fmt, false);
-        supplied.assertions.truncate(1);
-        supplied.ingredients.clear();
-        supplied.thumbnail = None;
-        supplied.hash_alg = Some("sha512");
+        let mut base = gen_supplied(&mut r, fmt, false);
+        base.assertions.truncate(1);
+        base.ingredients.clear();
+        base.thumbnail = None;
+        base.hash_alg = None;
+        base.claim_version = 2;
+        base.cgi.truncate(1); // a version-2 claim takes exactly one claim_generator_info entry
+        let fx = |n: &str| fixture_pool.iter().find(|i| i.title == n).cloned();
+        let plain = |s: Supplied| Plan { created: vec![true; s.assertions.len()], supplied: s, stream_ings: vec![], x: Extras::default() };
         // (1) hash_alg
-        let plan = Plan { supplied: supplied.clone(), created: vec![true], stream_ings: vec![] };
+        let mut p = plain(base.clone());
+        p.supplied.hash_alg = Some("sha512");
         let before = run.dist.get("hash_alg-not-restored").copied().unwrap_or(0);
-        one_case(run, &plan, fmt, src, "ephemeral", 1, "W-hash_alg");
+        one_case(run, &p, fmt, src, "ephemeral", 1, "W-hash_alg");
         let lost = run.dist.get("hash_alg-not-restored").copied().unwrap_or(0) > before;
-        run.notes.push(format!("witness hash_alg=sha512 through one archive round trip: claim alg {} (theorem archive_roundtrip_full_false: the definition's hash_alg is not restored; not part of the reported content)", if lost { "falls back to the default" } else { "is kept" }));
-        // (2) reserved label: model correspondence only
-        let mut s2 = supplied.clone();
-        s2.hash_alg = None;
-        s2.assertions.push(("org.contentauth.archive.metadata.mine".to_string(), json!({"x": 1}), "Json"));
-        let plan = Plan { supplied: s2, created: vec![true, false], stream_ings: vec![] };
-        let req = "C22 chain n=1 v=".to_string() + &plan.supplied.claim_version.to_string() + " thumb=0 alg=- asn=c2pa.actions:c:c,org.contentauth.archive.metadata.mine:j:g";
-        match guarded(move || build(&plan, &base_settings()).and_then(|b| roundtrip(b, &base_settings()))) {
-            Ok(Ok(b)) => {
-                run.case(req, definition_reply(&b));
-                run.count("witness:reserved-label");
+        run.notes.push(format!("witness hash_alg=sha512 through one archive round trip: claim alg {} (theorem hash_alg_not_restored; not part of the reported content)", if lost { "falls back to the default" } else { "is kept" }));
+        run.obligations.insert("witness:hash_alg_not_restored".into(), lost);
+        // (2) archive bookkeeping label
+        let mut p = plain(base.clone());
+        p.supplied.assertions.push(("org.contentauth.archive.metadata.mine".to_string(), json!({"x": 1}), "Json"));
+        p.created = vec![true, false];
+        let o = one_case(run, &p, fmt, src, "ephemeral", 1, "W-archive-label");
+        run.obligations.insert("witness:archive_label_dropped".into(), o.classes.iter().any(|c| c == "restored-archive-label-assertion-dropped"));
+        // (3) no_embed + remote_url
+        let mut p = plain(base.clone());
+        p.x.no_embed = true;
+        p.x.remote = true;
+        let o = one_case(run, &p, fmt, src, "ephemeral", 1, "W-embedding-mode");
+        run.obligations.insert("witness:embedding_mode_not_restored".into(), o.classes.iter().any(|c| c == "restored-embedding-mode-differs"));
+        // (4) redaction
+        if let Some(ca) = fx("CA.jpg") {
+            if let Some((label, asns)) = &ca.info {
+                if let Some(a) = asns.iter().find(|a| !a.starts_with("c2pa.actions")) {
+                    let mut p = plain(base.clone());
+                    p.stream_ings = vec![ca.clone()];
+                    p.x.redact = vec![format!("self#jumbf=/c2pa/{label}/c2pa.assertions/{a}")];
+                    let o1 = one_case(run, &p, fmt, src, "es256", 1, "W-redaction");
+                    let o2 = one_case(run, &p, fmt, src, "es256", 2, "W-redaction");
+                    run.obligations.insert("witness:redaction_resign_fails".into(), o1.direct_signed && o1.archived && !o1.restored_signed && o1.classes.iter().any(|c| c == "restored-sign-failed-redaction-reapplied") && !o2.archived);
+                }
             }
-            other => run.notes.push(format!("reserved-label witness not replayed: {:?}", other.map(|r| r.map(|_| ()))))
         }
+        // (5) settings-driven actions / templates, with and without an actions assertion
+        let mut p = plain(base.clone());
+        p.x.xa = vec!["c2pa.edited"];
+        p.x.xt = 1;
+        let mut dup = true;
+        for n in [1, 2] {
+            let o = one_case(run, &p, fmt, src, "ephemeral", n, "W-settings-actions");
+            dup &= o.classes.iter().any(|c| c == "restored-settings-actions-duplicated");
+        }
+        let mut p2 = plain(base.clone());
+        p2.x.xa = vec!["c2pa.created", "c2pa.edited"];
+        p2.x.raw_assertions = Some(vec![]);
+        let o = one_case(run, &p2, fmt, src, "ephemeral", 1, "W-settings-actions-none");
+        dup &= o.classes.iter().any(|c| c == "restored-settings-actions-duplicated");
+        run.obligations.insert("witness:settings_actions_duplicated".into(), dup);
+        // (6) instance numbers
+        let mut p = plain(base.clone());
+        p.x.raw_assertions = Some(vec![
+            json!({"label": "c2pa.actions", "data": {"actions": [{"action": "c2pa.created", "digitalSourceType": "http://cv.iptc.org/newscodes/digitalsourcetype/digitalCapture"}]}, "created": true}),
+            json!({"label": "x.y", "data": {"n": 1}}),
+            json!({"label": "x.y", "data": {"n": 2}, "created": true}),
+        ]);
+        let o = one_case(run, &p, fmt, src, "ephemeral", 1, "W-instances");
+        run.obligations.insert("witness:instance_numbers_swap".into(), o.classes.iter().any(|c| c == "restored-assertion-instances-differ"));
+        // (7) two actions assertions, inception in the gathered one
+        let mut p = plain(base.clone());
+        p.x.raw_assertions = Some(vec![
+            json!({"label": "c2pa.actions", "data": {"actions": [{"action": "c2pa.created", "digitalSourceType": "http://cv.iptc.org/newscodes/digitalsourcetype/digitalCapture"}]}}),
+            json!({"label": "c2pa.actions", "data": {"actions": [{"action": "c2pa.edited"}]}, "created": true}),
+        ]);
+        let o = one_case(run, &p, fmt, src, "ephemeral", 1, "W-actions-reordered");
+        run.obligations.insert("witness:actions_reordered_resign_fails".into(), o.direct_signed && o.archived && !o.restored_signed);
+        // (8) ingredient thumbnails
+        if let Some(ca) = fx("CA.jpg") {
+            let mut p = plain(base.clone());
+            p.supplied.claim_version = 1;
+            p.stream_ings = vec![ca.clone()];
+            let o1 = one_case(run, &p, fmt, src, "es256", 1, "W-v1-ingredient-thumbnail");
+            let o2 = one_case(run, &p, fmt, src, "es256", 2, "W-v1-ingredient-thumbnail");
+            run.obligations.insert("witness:v1_ingredient_thumbnail_lost".into(), o1.restored_signed && o1.classes.is_empty() && o2.classes.iter().any(|c| c == "restored-ingredient-thumbnail-differs-v1-claim"));
+            let mut p = plain(base.clone());
+            let mut ca2 = ca.clone();
+            ca2.user_thumb = true;
+            p.stream_ings = vec![ca2];
+            let o = one_case(run, &p, fmt, src, "es256", 1, "W-user-ingredient-thumbnail");
+            run.obligations.insert("witness:user_ingredient_thumbnail_replaced".into(), o.classes.iter().any(|c| c == "restored-ingredient-user-thumbnail-replaced"));
+            // version-1 claim, unsigned ingredient with a caller thumbnail (data box): survives
+            if let Some(u) = pool.iter().find(|i| i.kind == "unsigned" && i.format == "image/jpeg") {
+                let mut p = plain(base.clone());
+                p.supplied.claim_version = 1;
+                let mut u2 = u.clone();
+                u2.user_thumb = true;
+                p.stream_ings = vec![u2];
+                let mut good = true;
+                for n in [1, 2, 3] {
+                    let o = one_case(run, &p, fmt, src, "es256", n, "W-v1-databox-thumbnail");
+                    good &= o.restored_signed && o.classes.is_empty();
+                }
+                run.obligations.insert("witness:v1_databox_thumbnail_survives".into(), good);
+            }
+        }
+        // (9) intents
+        let mut p = plain(base.clone());
+        p.x.intent = Some("edit");
+        p.x.raw_assertions = Some(vec![]);
+        let before = run.dist.get("archive-not-written:edit-intent-without-parent").copied().unwrap_or(0);
+        let o = one_case(run, &p, fmt, src, "ephemeral", 1, "W-edit-intent");
+        run.obligations.insert("witness:edit_intent_archive_fails".into(), o.direct_signed && !o.archived && run.dist.get("archive-not-written:edit-intent-without-parent").copied().unwrap_or(0) > before);
+        let mut p = plain(base.clone());
+        p.x.intent = Some("create");
+        p.x.raw_assertions = Some(vec![]);
+        let o = one_case(run, &p, fmt, src, "ephemeral", 2, "W-create-intent");
+        run.obligations.insert("witness:intent_baked".into(), o.restored_signed && o.classes.is_empty());
+        // (10) chains on the fixture shapes (chain_examples_*): the seeded regression C22-1 lives here
+        let mut all = true;
+        let mut ran = 0;
+        for name in ["ocsp.jpg", "CACAE-uri-CA.jpg", "CACA.jpg", "CIE-sig-CA.jpg", "legacy_ingredient_hash.jpg", "CA.jpg"] {
+            if let Some(f) = fx(name) {
+                let mut p = plain(base.clone());
+                p.stream_ings = vec![f];
+                for n in if thorough { vec![1, 2, 3] } else { vec![1, 2] } {
+                    let o = one_case(run, &p, fmt, src, "es256", n, &format!("W-nested-{name}"));
+                    if o.direct_signed {
+                        ran += 1;
+                        all &= o.restored_signed && o.classes.is_empty();
+                    }
+                }
+            }
+        }
+        run.obligations.insert("witness:chain_examples_on_fixture_ingredients".into(), all && ran >= 6);
+        // (11) `*.metadata` labels: reported as JSON whatever the supplied kind
+        let mut p = plain(base.clone());
+        p.supplied.assertions.push(("org.verif.metadata".to_string(), json!({"@context": {"dc": "http://purl.org/dc/elements/1.1/"}, "dc:title": "hello"}), "Json"));
+        p.created = vec![true, false];
+        one_case(run, &p, fmt, src, "ephemeral", 2, "W-metadata-label");
     }
-    // fixtures
+    // fixtures of the legacy ZIP format
     let ctx = || Context::new().with_settings(base_settings().as_str()).expect("ctx");
     let idx = run.reqs.len().saturating_sub(1);
     match std::fs::read(fixtures().join("old_format_archive.zip")) {
@@ -536,4 +1129,5 @@ pub fn run(run: &mut Run, rng: &mut Rng) {
         },
         Err(_) => run.notes.push("bad_path_archive.zip missing".into()),
     }
+    let _ = BTreeSet::<String>::new();
 }
